@@ -6,7 +6,7 @@ From Coq Require Import ZArith Lia List Bool.
 From TV Require Import Base.Int32 Base.Sums Ring.NegaRing Model.Numeric Model.Lwe Model.Poly Model.Tlwe Model.Decomp Model.Tgsw Model.Bootstrap
   Model.Gates Model.Encrypt
   Proofs.Numeric Proofs.Lwe Proofs.Poly Proofs.Tlwe Proofs.Digits Proofs.Decomp Proofs.Karatsuba Proofs.Tgsw Proofs.Gadget Proofs.BlindRotate Proofs.BootKey
-  Proofs.Encrypt Proofs.Decrypt Proofs.TgswDecrypt.
+  Proofs.Encrypt Proofs.Decrypt Proofs.TgswDecrypt Proofs.ExtprodPoly.
 Import ListNotations.
 Local Open Scope Z_scope.
 
@@ -55,6 +55,28 @@ Proof. intros Hs Heta Hb H. unfold tgsw_sym_encrypt_int in H. pose proof Hkey as
     rewrite Eg in Hph. rewrite (eqm32_w32 _ _ Hph). unfold gaussian32 at 1. rewrite w32_idem.
     apply Hb, Hin, nth_In. lia. }
   eexists. exact (gadget_sample_acts_like N Npos key k Hkey Hbin l B V s Hs Z0 HZ HlZ e eta He Hbd Heta). Qed.
+
+(* tGswSymEncrypt of a polynomial message (C07) acts on every accumulator like mu (C09, polynomial form) *)
+Theorem encrypt_poly_acts_like mu ds C r eta : lenN N mu -> 0 <= eta -> bounded eta ds ->
+  tgsw_sym_encrypt l B key N mu ds = Some (C, r) ->
+  forall t, wf_tsample N k t ->
+  exists E, eqNm N (PH (extprod l B C t)) (vadd (act N mu (PH t)) E) /\ (forall j, (j < N)%nat -> Z.abs (E j) <= beta_poly N k l B mu eta).
+Proof. intros Hmu Heta Hb H t Ht. unfold tgsw_sym_encrypt in H. pose proof Hkey as [Hkl Hkf]. rewrite Hkl in H.
+  destruct (tgsw_encrypt_zero (S k * l) key N ds) as [[Z0 r1]|] eqn:E; [|discriminate]. inversion H; subst C r. clear H.
+  destruct (tgsw_encrypt_zero_spec N Npos key k Hkey _ _ _ _ E) as [HlZ HF].
+  set (e := fun p j => w32 (PH (nth p Z0 []) j)).
+  assert (HZ : Forall (wf_tsample N k) Z0) by (eapply Forall_impl; [|exact HF]; intros c Hc; exact (proj1 Hc)).
+  assert (He : forall p, (p < S k * l)%nat -> eqNm N (PH (nth p Z0 [])) (e p)).
+  { intros p Hp j Hj. unfold e. apply eqm32_sym, w32_eqm. }
+  assert (Hbd : forall p j, (p < S k * l)%nat -> (j < N)%nat -> Z.abs (e p j) <= eta).
+  { intros p j Hp Hj. unfold e. rewrite Forall_forall in HF.
+    destruct (HF (nth p Z0 []) ltac:(apply nth_In; lia)) as (_ & gs & Hg & Hph & Hin).
+    specialize (Hph j Hj).
+    assert (Eg : ofl (map (gaussian32 0) gs) j = gaussian32 0 (nth j gs (0, 0))) by (unfold ofl; apply nth_map_gen; lia).
+    rewrite Eg in Hph. rewrite (eqm32_w32 _ _ Hph). unfold gaussian32 at 1. rewrite w32_idem.
+    apply Hb, Hin, nth_In. lia. }
+  exists (Ep N key k l B mu e t).
+  exact (extprod_poly_error_bound N Npos key k Hkey Hbin l B V mu Hmu Z0 HZ HlZ e eta He Hbd Heta t Ht). Qed.
 
 (* the whole bootstrapping key *)
 Theorem bk_rows_good_key eta : 0 <= eta -> forall kin ds bk r, bounded eta ds ->
